@@ -173,7 +173,14 @@ pub fn run(tier: Tier) -> i32 {
                         let exp = format!("xyzzy {n}{}{d} plugh", l.mark());
                         let got = guard(|| replace_numbers_in_text(&s, &lang, 0.0)).unwrap_or_else(|p| p);
                         if got != exp {
-                            ctx.report(acc, Violation { lang: l.code().into(), entry: "replace_text".into(), input: s, threshold: Some(0.0), clause: "rewrite(int sep frac) = int mark frac, every dictated digit kept (long fraction)".into(), expected: exp, observed: got });
+                            ctx.report(acc, Violation { lang: l.code().into(), entry: "replace_text".into(), input: s.clone(), threshold: Some(0.0), clause: "rewrite(int sep frac) = int mark frac, every dictated digit kept (long fraction)".into(), expected: exp, observed: got });
+                        }
+                        // its value is that decimal: the double nearest to the written numeral
+                        if let Ok((_, occs)) = guard(|| stream::find_in_text(&s, &lang, 0.0)) {
+                            let v: f64 = format!("{n}.{d}").parse().unwrap();
+                            if occs.len() == 1 && occs[0].value().to_bits() != v.to_bits() {
+                                ctx.report(acc, Violation { lang: l.code().into(), entry: "find_text".into(), input: s, threshold: Some(0.0), clause: "the value of a decimal is the double nearest to its numeral (long fraction)".into(), expected: format!("{v:e}"), observed: format!("{:e}", occs[0].value()) });
+                            }
                         }
                     }
                 }
